@@ -524,11 +524,19 @@ def r_bigrepr(fl, rep, rid):
             src = (b.get("at") or [""])[0]
             conv.append((i, b, src))
     wide = [c for c in conv if c[2] in WIDE]
+    # the conversion may sit in a closure of the function (`.and_then(|i| i.try_into().ok())`): then it is the closure's
+    # result that guards the plain form, and dominance is not expressible on the parent's blocks — its presence suffices
+    in_closure = []
+    for cl in fl.closures_of(to["id"]):
+        for b in cl["blocks"]:
+            if b.get("k") == "call" and last(b.get("decl") or b.get("callee") or "") in ("try_into", "try_from") and "Int" in (b.get("targs") or "") and (b.get("at") or [""])[0] in WIDE:
+                in_closure.append((b.get("at") or [""])[0])
     aggs = {a["v"]: a["bb"] for a in to["aggs"] if a["adt"].endswith("BigInt")}
     dom = flowrun.dominators(to)
-    rep.check(bool(wide) and "Int" in aggs and any(i in dom.get(aggs["Int"], ()) for i, _, _ in wide), rid, "to_pallas_bigint#plain-form-from-128-bits", "%s:%s" % (VAL_RS, to["line"]), "the plain CBOR form (BigInt::Int) must be guarded by a fallible conversion from >= 128 bits into pallas Int, whose range is the CBOR integer range; found conversions from %s: values between 2^63 and 2^64 (or their negatives) would be written as bignums — equal as numbers, different bytes under serialiseData" % [c[2] for c in conv], sample={"conversions": [c[2] for c in conv]})
+    conv = conv + [(None, None, t_) for t_ in in_closure]
+    rep.check("Int" in aggs and ((bool(wide) and any(i in dom.get(aggs["Int"], ()) for i, _, _ in wide)) or bool(in_closure)), rid, "to_pallas_bigint#plain-form-from-128-bits", "%s:%s" % (VAL_RS, to["line"]), "the plain CBOR form (BigInt::Int) must be guarded by a fallible conversion from >= 128 bits into pallas Int, whose range is the CBOR integer range; found conversions from %s: values between 2^63 and 2^64 (or their negatives) would be written as bignums — equal as numbers, different bytes under serialiseData" % [c[2] for c in conv], sample={"conversions": [c[2] for c in conv]})
     narrow = [last(b.get("decl") or b.get("callee") or "") for b in to["blocks"] if b.get("k") == "call" and last(b.get("decl") or b.get("callee") or "") in ("to_i64", "to_u64", "to_i32", "to_u32", "to_isize", "to_usize")]
-    rep.check(not narrow or bool(wide), rid, "to_pallas_bigint#no-narrow-only-selector", "%s:%s" % (VAL_RS, to["line"]), "to_pallas_bigint selects the representation through %s only" % narrow, nontrivial=False)
+    rep.check(not narrow or bool(wide) or bool(in_closure), rid, "to_pallas_bigint#no-narrow-only-selector", "%s:%s" % (VAL_RS, to["line"]), "to_pallas_bigint selects the representation through %s only" % narrow, nontrivial=False)
     arith = [(i, b) for i, b in enumerate(to["blocks"]) if b.get("k") == "call" and last(b.get("decl") or "") in ("add", "sub") and "BigInt" in (b.get("self_ty") or "") and any(_is_one(a) for a in b.get("a", []))]
     okn = "BigNInt" in aggs and "BigUInt" in aggs and any(i in dom.get(aggs["BigNInt"], ()) and i not in dom.get(aggs["BigUInt"], ()) for i, _ in arith)
     rep.check(okn, rid, "to_pallas_bigint#negative-payload-is-minus-one-minus-n", "%s:%s" % (VAL_RS, to["line"]), "the BigNInt payload must be computed by big-integer arithmetic with the constant 1 on the negative branch only (found %d such operation(s)): byte-level shortcuts lose the borrow / carry at multiples of 256" % len(arith), sample={"ops": [last(b["decl"]) for _, b in arith]})
